@@ -196,6 +196,8 @@ def g3_boundaries(full):
          "    def g(x):\n        while x:\n            x = x + " + " + ".join("c%d" % i for i in range(260)) + "\n        return x\n    return g\n", "exec"),
         ("g3:name_both_cell_and_free", "class A:\n    def f(self):\n        class B:\n            x = __class__\n            def g(self):\n                return __class__, x\n        return B\n"
          "    def h(self):\n        class C(A):\n            y = __class__\n            def m(self):\n                return super().h, y\n        return C\n", "exec"),
+        ("g3:dead_multiline_tuple_after_return", "def f():\n    return 0\n    x = (a,\n" + "\n" * 121 + "         (\n" + "\n" * 4 + "          c,)\n        )\n"
+         "def g():\n    return 0\n    y = (a,\n" + "\n" * 126 + "         (b,\n          (\n" + "\n" * 126 + "          c,)))\n", "exec"),
         ("g3:merged_code_consts", "def ratio(xs, ys):\n    return sum(x*x for x in xs) / sum(x*x for x in ys)\nf = (lambda: 1), (lambda: 1)\ng = [i for i in a], [i for i in a]\n", "exec"),
         ("g3:dead_nested_after_return", "def live():\n    return 1\n    def dead():\n        return 2\n    class Dead:\n        pass\n", "exec"),
         ("g3:barry", "from __future__ import barry_as_FLUFL\nx = 1\ndef f(): return x\n", "exec"),
